@@ -110,6 +110,51 @@ def _ast_facts(D):
     return recv, budget_port, caught
 
 
+def _send_fact(D):
+    """are the answer sends (`sendto(..., addr)` inside the receive loop of `run`) enclosed in a `try` whose handler catches
+    OSError and goes on with the loop (no `raise`, no `return`, no `break` in the handler)?"""
+    tree = ast.parse(inspect.getsource(D))
+    for fn in ast.walk(tree):
+        if not (isinstance(fn, ast.FunctionDef) and fn.name == 'run'):
+            continue
+        for loop in ast.walk(fn):
+            if not isinstance(loop, ast.While):
+                continue
+            answer_sends = []          # (call node, protected?)
+
+            def visit(node, protected):
+                if isinstance(node, ast.Try):
+                    ok = False
+                    for h in node.handlers:
+                        if h.type is None:
+                            classes = (BaseException,)
+                        else:
+                            v = eval(compile(ast.Expression(h.type), '<except>', 'eval'), vars(D))  # pylint: disable=eval-used
+                            classes = tuple(v) if isinstance(v, tuple) else (v,)
+                        leaves = any(isinstance(x, (ast.Raise, ast.Return, ast.Break)) for b in h.body for x in ast.walk(b))
+                        if issubclass(OSError, classes) and not leaves:
+                            ok = True
+                    for child in node.body:
+                        visit(child, protected or ok)
+                    for part in (node.handlers, node.orelse, node.finalbody):
+                        for child in part:
+                            visit(child, protected)
+                    return
+                if isinstance(node, ast.Call) and isinstance(node.func, ast.Attribute) and node.func.attr == 'sendto':
+                    answer_sends.append(protected)
+                elif isinstance(node, ast.Call) and isinstance(node.func, ast.Attribute) \
+                        and isinstance(node.func.value, ast.Name) and node.func.value.id == 'self' \
+                        and not node.func.attr.startswith('_getMessage') and node.func.attr.startswith('_'):
+                    # a private helper called from the loop (it may do the sending): counts as a send at this place
+                    answer_sends.append(protected)
+                for child in ast.iter_child_nodes(node):
+                    visit(child, protected)
+            for stmt in loop.body:
+                visit(stmt, False)
+            return bool(answer_sends) and all(answer_sends)
+    return False
+
+
 def _server_facts():
     """(A) `self.interfaces = {}` inside the restart loop of Server.run, (B) the UDPListener gets the bound ports
     (`iface.port`) or `list(self.interfaces)`, (C) Server.restart shuts `self.discovery` down"""
@@ -168,6 +213,8 @@ def generate():
         f'def catchesRecursionError : Bool := {catches(RecursionError)}',
         f'def catchesTypeError : Bool := {catches(TypeError)}',
         'def serverSchemes : List (List Char) := ' + llist(lchars(s) for s in Server.INTERFACES),
+        '-- the sends answering a request are inside `try … except OSError` that goes on with the loop',
+        f'def catchesSendError : Bool := {"true" if _send_fact(D) else "false"}',
     ]
     reset, bound, closes, known_arg = _server_facts()
     out += [
